@@ -140,16 +140,18 @@ def head_possible(g: CFG, mod, at: ast.AST, subj: ast.AST, head_attr: str = "uri
         return []
     # ... or the removal sits on the side of a comparison with the list node that excludes it:
     # `if x == self.uri: <links only> else: remove((x, None, None))` / `if x != self.uri: remove(...)`
+    # (the list node: self.uri, or a local copy of it - denotes_head)
     if depth == 0:
-        sx, head = norm(subj), "self.%s" % head_attr
+        sx = norm(subj)
         for p_ in mod.parents(at):
             if isinstance(p_, (ast.FunctionDef, ast.For, ast.While)):
                 break
-            if isinstance(p_, ast.If) and isinstance(p_.test, ast.Compare) and len(p_.test.ops) == 1 and {norm(p_.test.left), norm(p_.test.comparators[0])} == {sx, head}:
+            op = compared_with_head(g, mod, p_, sx, head_attr) if isinstance(p_, ast.If) else None
+            if op is not None:
                 in_body = any(at is x for s_ in p_.body for x in ast.walk(s_))
                 rebound = any(isinstance(a, ast.Assign) and any(norm(t) == sx for t in a.targets) and a.lineno < getattr(at, "lineno", 0)
                               for s_ in (p_.body if in_body else p_.orelse) for a in ast.walk(s_))
-                if not rebound and ((isinstance(p_.test.ops[0], ast.Eq) and not in_body) or (isinstance(p_.test.ops[0], ast.NotEq) and in_body)):
+                if not rebound and ((isinstance(op, ast.Eq) and not in_body) or (isinstance(op, ast.NotEq) and in_body)):
                     return []
     if isinstance(subj, ast.Call) and isinstance(subj.func, ast.Attribute) and subj.func.attr == "_get_container" and len(subj.args) == 1 and not subj.keywords:
         k = subj.args[0]
@@ -233,3 +235,544 @@ def raising_cycle_guard(g: CFG, mod, loop: ast.While, cursor: str) -> tuple[bool
         if g.reach(g.node_of(a), avoid=gids) & lids:
             return False, "a path from `%s` reaches the next rdf:rest lookup without passing the visited test" % norm(a)[:60]
     return True, "visited-set %s: meeting a cell again raises, on every path between two steps" % guards[0][1]
+
+
+# ================================================================================================ rules o - s (third audit round)
+# ------------------------------------------------------------------------------------------------ facts established by branch edges
+def edge_establishes(test: ast.expr, taken: bool, atom: Callable[[ast.AST], Optional[bool]]) -> bool:
+    """Does leaving `test` by its true (taken) / false edge establish a fact?  atom(cmp) says True when the fact holds if the
+    comparison is true, False when it holds if the comparison is false, None when the comparison says nothing about it."""
+    if isinstance(test, ast.UnaryOp) and isinstance(test.op, ast.Not):
+        return edge_establishes(test.operand, not taken, atom)
+    if isinstance(test, ast.BoolOp):
+        if taken and isinstance(test.op, ast.And):
+            return any(edge_establishes(v, True, atom) for v in test.values)
+        if not taken and isinstance(test.op, ast.Or):
+            return any(edge_establishes(v, False, atom) for v in test.values)
+        return False
+    r = atom(test)
+    return r is not None and r == taken
+
+
+def fact_on_every_path(g: CFG, target: int, var: str, atom: Callable[[ast.AST], Optional[bool]]) -> bool:
+    """On every path entry -> target the last thing that happened to `var` is a branch edge that establishes the fact `atom`
+    describes (no re-binding of var in between).  The generic form of positive_on_every_path."""
+    start = (g.entry, False)
+    seen = {start}
+    stack = [start]
+    while stack:
+        nid, known = stack.pop()
+        if nid == target and not known:
+            return False
+        node = g.nodes[nid]
+        st = node.ast
+        if binds(st, var):
+            known = False
+        for m in g.succ[nid]:
+            lab = g.edge_label.get((nid, m), "")
+            k2 = known
+            if node.kind == "test" and isinstance(st, (ast.If, ast.While)) and lab not in ("exc", "back"):
+                if edge_establishes(st.test, lab == "true", atom):
+                    k2 = True
+            s2 = (m, k2)
+            if s2 not in seen:
+                seen.add(s2)
+                stack.append(s2)
+    return True
+
+
+def atom_nonpositive(var: str) -> Callable[[ast.AST], Optional[bool]]:
+    def atom(c: ast.AST) -> Optional[bool]:
+        s = _cmp_sign(c, var)
+        return True if s in ("nonpos", "z") else (False if s in ("pos", "nz") else None)
+    return atom
+
+
+def is_nil(e: ast.AST) -> bool:
+    return (isinstance(e, ast.Attribute) and e.attr == "nil") or (isinstance(e, ast.Subscript) and isinstance(e.slice, ast.Constant) and e.slice.value == "nil")
+
+
+def atom_not_nil(var: str) -> Callable[[ast.AST], Optional[bool]]:
+    def atom(c: ast.AST) -> Optional[bool]:
+        if not (isinstance(c, ast.Compare) and len(c.ops) == 1):
+            return None
+        l, op, r = c.left, c.ops[0], c.comparators[0]
+        if not ((isinstance(l, ast.Name) and l.id == var and is_nil(r)) or (isinstance(r, ast.Name) and r.id == var and is_nil(l))):
+            return None
+        if isinstance(op, (ast.NotEq, ast.IsNot)):
+            return True
+        if isinstance(op, (ast.Eq, ast.Is)):
+            return False
+        return None
+    return atom
+
+
+def _resolve(g: CFG, at_id: int, name: str) -> list[tuple[int, Optional[ast.AST]]]:
+    """(definition node, bound expression or None) for every definition of the plain name that reaches at_id."""
+    out = []
+    for d in sorted(reaching_defs(g, at_id, name)):
+        st = g.nodes[d].ast if d != g.entry else None
+        out.append((d, assigned_value(st, name) if st is not None else None))
+    return out
+
+
+# ------------------------------------------------------------------------------------------------ is this name certainly the head?
+def head_certain(g: CFG, mod, at: ast.AST, subj: ast.AST, head_attr: str = "uri", depth: int = 0) -> list[str]:
+    """Reasons why `subj`, evaluated at the statement of `at`, may be a cell OTHER than the list node self.<head_attr>.
+    Empty list = it provably is the list node: self.uri itself, the `== self.uri` side of a comparison, or
+    self._get_container(k) where k > 0 is excluded on every path (k is a normalised index: rule C19.h)."""
+    subj = strip_cast(subj)
+    target = g.node_of(at, mod)
+    head = "self.%s" % head_attr
+    if norm(subj) == head:
+        return []
+    if depth == 0:
+        sx = norm(subj)
+        for p_ in mod.parents(at):
+            if isinstance(p_, (ast.FunctionDef, ast.For, ast.While)):
+                break
+            # (the list node: self.uri, or a local copy of it - denotes_head)
+            op = compared_with_head(g, mod, p_, sx, head_attr) if isinstance(p_, ast.If) else None
+            if op is not None:
+                in_body = any(at is x for s_ in p_.body for x in ast.walk(s_))
+                side = p_.body if in_body else p_.orelse
+                rebound = any(binds(a, sx) and getattr(a, "lineno", 0) < getattr(at, "lineno", 0) for s_ in side for a in ast.walk(s_) if isinstance(a, ast.stmt))
+                if not rebound and ((isinstance(op, (ast.Eq, ast.Is)) and in_body) or (isinstance(op, (ast.NotEq, ast.IsNot)) and not in_body)):
+                    return []
+    if isinstance(subj, ast.Call) and isinstance(subj.func, ast.Attribute) and subj.func.attr == "_get_container" and len(subj.args) == 1 and not subj.keywords:
+        k = subj.args[0]
+        if isinstance(k, ast.Constant) and k.value == 0 and not isinstance(k.value, bool):
+            return []
+        if isinstance(k, ast.Name):
+            if fact_on_every_path(g, target, k.id, atom_nonpositive(k.id)):
+                return []
+            return ["_get_container(%s) where %s > 0 is not excluded on every path" % (k.id, k.id)]
+        return ["_get_container(%s): the index is not a plain name tested against 0" % norm(k)]
+    if isinstance(subj, ast.Name):
+        if depth > 4:
+            return ["%s: definition chain too long to resolve" % subj.id]
+        out: list[str] = []
+        for d, val in _resolve(g, target, subj.id):
+            if d == g.entry:
+                out.append("%s holds its value from function entry" % subj.id)
+            elif val is None:
+                out.append("%s bound by `%s`" % (subj.id, norm(g.nodes[d].ast)[:60]))
+            else:
+                v = strip_cast(val)
+                if isinstance(v, ast.Call) and isinstance(v.func, ast.Attribute) and v.func.attr == "_get_container":
+                    out += head_certain(g, mod, at, v, head_attr, depth + 1)
+                elif is_rest_value_lookup(v):
+                    out.append("%s is the rdf:rest of a cell (a successor cell)" % subj.id)
+                else:
+                    out += head_certain(g, mod, g.nodes[d].ast, v, head_attr, depth + 1)
+        return out
+    return ["%s: not the list node" % norm(subj)[:60]]
+
+
+def nil_possible(g: CFG, mod, at: ast.AST, subj: ast.AST, depth: int = 0) -> list[str]:
+    """Reasons why `subj` at the statement of `at` may be rdf:nil.  Empty = excluded: the value of _get_container (rule C19.g: it never
+    hands out rdf:nil), a fresh BNode(), self.uri guarded elsewhere - or a plain name for which `!= rdf:nil` is established by a branch
+    edge on every path since its last binding."""
+    subj = strip_cast(subj)
+    target = g.node_of(at, mod)
+    if isinstance(subj, ast.Call) and isinstance(subj.func, ast.Attribute) and subj.func.attr == "_get_container":
+        return []
+    if isinstance(subj, ast.Call) and isinstance(subj.func, ast.Name) and subj.func.id == "BNode":
+        return []
+    if is_nil(subj):
+        return ["it is rdf:nil"]
+    if isinstance(subj, ast.Name):
+        if fact_on_every_path(g, target, subj.id, atom_not_nil(subj.id)):
+            return []
+        if depth > 4:
+            return ["%s: definition chain too long to resolve" % subj.id]
+        out: list[str] = []
+        for d, val in _resolve(g, target, subj.id):
+            if d == g.entry or val is None:
+                out.append("%s is not compared with rdf:nil on every path to the removal" % subj.id)
+            else:
+                v = strip_cast(val)
+                if is_rest_value_lookup(v) or (isinstance(v, ast.Attribute) and norm(v).startswith("self.")):
+                    out.append("%s = %s is not compared with rdf:nil on every path to the removal" % (subj.id, norm(v)[:50]))
+                else:
+                    out += nil_possible(g, mod, g.nodes[d].ast, v, depth + 1)
+        return out
+    return ["%s: cannot tell it from rdf:nil" % norm(subj)[:60]]
+
+
+# ------------------------------------------------------------------------------------------------ type checks that refuse a value
+def _cls_names(e: ast.AST) -> set[str]:
+    if isinstance(e, ast.Name):
+        return {e.id}
+    if isinstance(e, ast.Attribute):
+        return {e.attr}
+    if isinstance(e, ast.Tuple):
+        out: set[str] = set()
+        for x in e.elts:
+            n = _cls_names(x)
+            if not n:
+                return set()
+            out |= n
+        return out
+    return set()
+
+
+def _conjuncts(t: ast.expr) -> Iterator[ast.expr]:
+    if isinstance(t, ast.BoolOp) and isinstance(t.op, ast.And):
+        for v in t.values:
+            yield from _conjuncts(v)
+    else:
+        yield t
+
+
+def isinstance_classes(c: ast.AST, vname: str) -> set[str]:
+    """class names T of `isinstance(vname, T)` (empty when c is not that call)."""
+    if isinstance(c, ast.Call) and isinstance(c.func, ast.Name) and c.func.id == "isinstance" and len(c.args) == 2 and isinstance(c.args[0], ast.Name) and c.args[0].id == vname:
+        return _cls_names(c.args[1])
+    return set()
+
+
+def add_refusals(add_fn: ast.FunctionDef) -> dict[int, set[str]]:
+    """position in the triple -> classes that `add` asserts the component to be an instance of (what it refuses otherwise)."""
+    if len(add_fn.args.args) < 2:
+        return {}
+    param = add_fn.args.args[1].arg
+    pos: dict[str, int] = {}
+    for a in ast.walk(add_fn):
+        if isinstance(a, ast.Assign) and isinstance(a.value, ast.Name) and a.value.id == param and isinstance(a.targets[0], (ast.Tuple, ast.List)):
+            for i, e in enumerate(a.targets[0].elts):
+                if isinstance(e, ast.Name):
+                    pos[e.id] = i
+    out: dict[int, set[str]] = {}
+    for a in ast.walk(add_fn):
+        if isinstance(a, ast.Assert):
+            for c in _conjuncts(a.test):
+                for name, i in pos.items():
+                    cl = isinstance_classes(c, name)
+                    if cl:
+                        out.setdefault(i, set()).update(cl)
+    return out
+
+
+def validator_helpers(mod, classes: set[str]) -> set[str]:
+    """module-level functions `def f(*terms): for t in terms: assert isinstance(t, <term class>)`."""
+    out = set()
+    for st in mod.tree.body:
+        if isinstance(st, ast.FunctionDef) and st.args.vararg is not None:
+            va = st.args.vararg.arg
+            for lp in ast.walk(st):
+                if isinstance(lp, ast.For) and isinstance(lp.iter, ast.Name) and lp.iter.id == va and isinstance(lp.target, ast.Name):
+                    if any(isinstance(a, ast.Assert) and any(isinstance_classes(c, lp.target.id) and isinstance_classes(c, lp.target.id) <= classes for c in _conjuncts(a.test)) for a in ast.walk(lp)):
+                        out.add(st.name)
+    return out
+
+
+def validation_nodes(g: CFG, fn: ast.AST, vname: str, classes: set[str], helpers: set[str]) -> set[int]:
+    """CFG nodes after which the plain name vname is known to be an instance of one of `classes` (the function has raised otherwise):
+    `assert isinstance(v, T)`, `if not isinstance(v, T): raise`, `helper(.., v, ..)`."""
+    out: set[int] = set()
+    stack = list(ast.iter_child_nodes(fn))
+    while stack:
+        st = stack.pop()
+        if isinstance(st, (ast.FunctionDef, ast.AsyncFunctionDef, ast.ClassDef, ast.Lambda)):
+            continue
+        stack.extend(ast.iter_child_nodes(st))
+        hit = False
+        if isinstance(st, ast.Assert):
+            hit = any(isinstance_classes(c, vname) and isinstance_classes(c, vname) <= classes for c in _conjuncts(st.test))
+        elif isinstance(st, ast.If) and isinstance(st.test, ast.UnaryOp) and isinstance(st.test.op, ast.Not) and st.body and isinstance(st.body[-1], ast.Raise):
+            cl = isinstance_classes(st.test.operand, vname)
+            hit = bool(cl) and cl <= classes
+        elif isinstance(st, ast.Expr) and isinstance(st.value, ast.Call) and isinstance(st.value.func, ast.Name) and st.value.func.id in helpers:
+            hit = any(isinstance(a, ast.Name) and a.id == vname for a in st.value.args)
+        if hit and id(st) in g.by_ast:
+            out.add(g.by_ast[id(st)])
+    return out
+
+
+def validated_before(g: CFG, fn: ast.AST, target: int, vname: str, classes: set[str], helpers: set[str]) -> bool:
+    """every path entry -> target passes a validation of vname, and vname is not re-bound between it and target."""
+    vs = validation_nodes(g, fn, vname, classes, helpers)
+    if not vs or not g.must_pass_before(target, vs):
+        return False
+    at_target = reaching_defs(g, target, vname)
+    return all(reaching_defs(g, v, vname) >= at_target or not (g.reach(v) & {target}) for v in vs)
+
+
+# ------------------------------------------------------------------------------------------------ raw (caller-supplied) values
+def forward_no_back(g: CFG, src: int) -> set[int]:
+    """nodes reachable from src without taking a loop back edge or an exception edge (= later in the same iteration)."""
+    seen: set[int] = set()
+    stack = [src]
+    while stack:
+        n = stack.pop()
+        for m in g.succ[n]:
+            if g.edge_label.get((n, m), "") in ("back", "exc") or m in seen:
+                continue
+            seen.add(m)
+            stack.append(m)
+    return seen
+
+
+_SEQ_COPIES = {"list", "tuple", "iter", "reversed", "sorted", "set", "frozenset"}
+
+
+def is_raw(g: CFG, at_id: int, e: ast.AST, raw_params: set[str], depth: int = 0) -> bool:
+    """Is the value of e at CFG node at_id handed in by the caller as it is: a raw parameter, a copy of one
+    (list(p) / tuple(p) / cast), or a member of one (`for x in p`)?  Names are resolved by reaching definitions."""
+    e = strip_cast(e)
+    if isinstance(e, ast.Starred):
+        e = e.value
+    if isinstance(e, ast.Call) and isinstance(e.func, ast.Name) and e.func.id in _SEQ_COPIES and e.args:
+        return is_raw(g, at_id, e.args[0], raw_params, depth + 1)
+    if isinstance(e, (ast.List, ast.Tuple)):
+        return any(is_raw(g, at_id, x, raw_params, depth + 1) for x in e.elts)
+    if not isinstance(e, ast.Name) or depth > 6:
+        return False
+    for d in reaching_defs(g, at_id, e.id):
+        if d == g.entry:
+            if e.id in raw_params:
+                return True
+            continue
+        st = g.nodes[d].ast
+        if isinstance(st, (ast.For, ast.AsyncFor)):
+            if is_raw(g, d, st.iter, raw_params, depth + 1):
+                return True
+            continue
+        val = assigned_value(st, e.id) if st is not None else None
+        if val is not None and is_raw(g, d, val, raw_params, depth + 1):
+            return True
+    return False
+
+
+# ================================================================================================ sixth pass: the same clauses, stated by value flow
+# ------------------------------------------------------------------------------------------------ expressions that denote the list node
+def head_is_bound_once(mod, at: ast.AST, head_attr: str = "uri") -> bool:
+    """self.<head_attr> is bound by __init__ only: no other method of the class that `at` belongs to stores to it (or deletes
+    it), so a local copy of it taken anywhere in a method is the list node for the rest of that method."""
+    cls = at if isinstance(at, ast.ClassDef) else next((p for p in mod.parents(at) if isinstance(p, ast.ClassDef)), None)
+    if cls is None:
+        return False
+    for st in cls.body:
+        if isinstance(st, (ast.FunctionDef, ast.AsyncFunctionDef)) and st.name != "__init__":
+            for n in ast.walk(st):
+                if isinstance(n, ast.Attribute) and n.attr == head_attr and isinstance(n.ctx, (ast.Store, ast.Del)):
+                    return False
+                if isinstance(n, ast.Call) and isinstance(n.func, ast.Name) and n.func.id in ("setattr", "delattr"):
+                    return False
+    return True
+
+
+def denotes_head(g: CFG, mod, at_id: int, e: ast.AST, head_attr: str = "uri", stable: Optional[bool] = None, depth: int = 0) -> bool:
+    """Is the value of e, evaluated at CFG node at_id, certainly the list node: self.<head_attr> itself, or a plain name whose
+    every reaching definition binds it to such an expression (a local copy, `head = self.uri`), self.<head_attr> being bound
+    by __init__ only."""
+    e = strip_cast(e)
+    if isinstance(e, ast.Attribute) and isinstance(e.value, ast.Name) and e.value.id == "self" and e.attr == head_attr:
+        return True
+    if not isinstance(e, ast.Name) or depth > 4:
+        return False
+    if stable is None:
+        st0 = g.nodes[at_id].ast
+        stable = st0 is not None and head_is_bound_once(mod, st0, head_attr)
+    if not stable:
+        return False
+    defs = _resolve(g, at_id, e.id)
+    return bool(defs) and all(d != g.entry and val is not None and denotes_head(g, mod, d, val, head_attr, stable, depth + 1) for d, val in defs)
+
+
+def compared_with_head(g: CFG, mod, test_stmt: ast.AST, subject_text: str, head_attr: str = "uri") -> Optional[ast.AST]:
+    """`<subject> <op> <the list node>` (either order) as the whole test of an if: the operator, or None."""
+    t = getattr(test_stmt, "test", None)
+    if not (isinstance(t, ast.Compare) and len(t.ops) == 1):
+        return None
+    l, r = t.left, t.comparators[0]
+    other = r if norm(l) == subject_text else (l if norm(r) == subject_text else None)
+    if other is None or id(test_stmt) not in g.by_ast:
+        return None
+    return t.ops[0] if denotes_head(g, mod, g.by_ast[id(test_stmt)], other, head_attr) else None
+
+
+# ------------------------------------------------------------------------------------------------ which cell does a write fill?
+def _is_first(e: ast.AST) -> bool:
+    return (isinstance(e, ast.Attribute) and e.attr == "first") or (isinstance(e, ast.Subscript) and isinstance(e.slice, ast.Constant) and e.slice.value == "first")
+
+
+def is_new_bnode(e: ast.AST) -> bool:
+    return isinstance(e, ast.Call) and isinstance(e.func, ast.Name) and e.func.id == "BNode"
+
+
+def defs_in_pass(g: CFG, start: int, target: int, var: str) -> set[int]:
+    """CFG nodes whose binding of the plain name `var` can be the last one executed on a path start -> target that stays within one
+    pass of the scope that `start` heads (start = function entry: the whole call; start = the head of a loop: one round of it - the
+    back edges into `start` are not taken).  `start` itself stands for `the value var has when the pass begins`, unless the head
+    binds var (a for-target).  Exception edges are not followed."""
+    from .cfg import _assigned_names
+
+    init = (start, start)
+    seen = {init}
+    stack = [init]
+    out: set[int] = set()
+    while stack:
+        nid, last = stack.pop()
+        if nid == target:
+            out.add(last)
+        node = g.nodes[nid]
+        st = node.ast
+        nlast = last
+        if st is not None:
+            if node.kind == "test":
+                if var in {n.target.id for n in ast.walk(st.test) if isinstance(n, ast.NamedExpr) and isinstance(n.target, ast.Name)}:
+                    nlast = nid
+            elif var in _assigned_names(st):
+                nlast = nid
+        for m in g.succ[nid]:
+            lab = g.edge_label.get((nid, m), "")
+            if lab == "exc" or (m == start and start != g.entry):
+                continue
+            s2 = (m, nlast)
+            if s2 not in seen:
+                seen.add(s2)
+                stack.append(s2)
+    return out
+
+
+def value_roots(g: CFG, start: int, at_id: int, e: ast.AST, _seen: Optional[set] = None) -> set[tuple]:
+    """What the value of e, evaluated at CFG node at_id, can be - copies (x = y), casts and both arms of a conditional expression are
+    followed by the definitions that reach within the pass that `start` heads (defs_in_pass):
+      ("fresh",)            a node made in this pass, BNode(...)
+      ("root", name, d)     the plain name `name` as bound at CFG node d by something that is not a copy (a call, a loop target ...);
+                            d = start: the value the name has when the pass begins (a parameter, what the last round left)
+      ("expr", text)        any other expression, by its text."""
+    seen = _seen if _seen is not None else set()
+    e = strip_cast(e)
+    if isinstance(e, ast.NamedExpr):
+        return value_roots(g, start, at_id, e.value, seen)
+    if isinstance(e, ast.IfExp):
+        return value_roots(g, start, at_id, e.body, seen) | value_roots(g, start, at_id, e.orelse, seen)
+    if is_new_bnode(e):
+        return {("fresh",)}
+    if isinstance(e, ast.Name):
+        if (e.id, at_id) in seen:
+            return set()  # a cycle of copies (through an inner loop) adds no value of its own
+        seen.add((e.id, at_id))
+        out: set[tuple] = set()
+        for d in defs_in_pass(g, start, at_id, e.id):
+            st = g.nodes[d].ast
+            val = assigned_value(st, e.id) if (st is not None and not (d == start and not binds(st, e.id))) else None
+            v = strip_cast(val) if val is not None else None
+            if v is not None and (isinstance(v, (ast.Name, ast.IfExp, ast.NamedExpr)) or is_new_bnode(v)):
+                out |= value_roots(g, start, d, v, seen)
+            else:
+                out.add(("root", e.id, d))
+        return out
+    return {("expr", norm(e))}
+
+
+def occupancy_reads(g: CFG, mod, scope: ast.AST, start: int) -> list[tuple[int, set[tuple], set[int]]]:
+    """(CFG node of the read, what the cell asked about can be, CFG nodes of the branch conditions its outcome decides) for every
+    `(cell, rdf:first, ..) in <graph>` / `not in` evaluated inside `scope` (whose pass begins at CFG node `start`).  The outcome decides
+    a branch when the comparison sits in the test of an if / while / conditional expression, or is bound to a plain name that such a
+    test reads, that binding being the only one that reaches the test within the pass."""
+    tests: list[tuple[ast.AST, int]] = []  # (test expression, CFG node that evaluates it)
+    for n in ast.walk(scope):
+        if isinstance(n, (ast.If, ast.While, ast.IfExp)):
+            try:
+                tests.append((n.test, g.node_of(n.test, mod)))
+            except Exception:
+                continue
+    out = []
+    for c in ast.walk(scope):
+        if not (isinstance(c, ast.Compare) and len(c.ops) == 1 and isinstance(c.ops[0], (ast.In, ast.NotIn)) and isinstance(c.left, ast.Tuple)
+                and len(c.left.elts) == 3 and _is_first(c.left.elts[1])):
+            continue
+        try:
+            cid = g.node_of(c, mod)
+        except Exception:
+            continue
+        decides: set[int] = set()
+        for t, tid in tests:
+            if any(x is c for x in ast.walk(t)):
+                decides.add(tid)
+        st = g.nodes[cid].ast
+        flag = None
+        if isinstance(st, ast.Assign) and len(st.targets) == 1 and isinstance(st.targets[0], ast.Name):
+            flag = st.targets[0].id
+        elif isinstance(st, ast.AnnAssign) and isinstance(st.target, ast.Name) and st.value is not None:
+            flag = st.target.id
+        if flag is not None and any(x is c for x in ast.walk(st.value)):
+            for t, tid in tests:
+                if any(isinstance(x, ast.Name) and x.id == flag and isinstance(x.ctx, ast.Load) for x in ast.walk(t)) and defs_in_pass(g, start, tid, flag) == {cid}:
+                    decides.add(tid)
+        out.append((cid, value_roots(g, start, cid, c.left.elts[0]), decides))
+    return out
+
+
+def dominated_in_scope(g: CFG, scope_start: int, target: int, through: int) -> bool:
+    """every path from the start of the scope (function entry / loop head) to `target` passes `through`."""
+    if through in (scope_start, target):
+        return True
+    return target not in g.reach(scope_start, avoid={through})
+
+
+# ------------------------------------------------------------------------------------------------ the successor is read before the link goes
+def _own_exprs(st: Optional[ast.AST]) -> list[ast.AST]:
+    """the part of a CFG statement that its own node evaluates (heads of compound statements: not their bodies)"""
+    if st is None:
+        return []
+    if isinstance(st, (ast.If, ast.While)):
+        return [st.test]
+    if isinstance(st, (ast.For, ast.AsyncFor)):
+        return [st.iter]
+    if isinstance(st, (ast.With, ast.AsyncWith)):
+        return [i.context_expr for i in st.items]
+    if isinstance(st, (ast.FunctionDef, ast.AsyncFunctionDef, ast.ClassDef, ast.Try)):
+        return []
+    return [st]
+
+
+_GRAPH_WRITERS = {"add", "addN", "set", "remove", "discard", "__iadd__", "__isub__"}
+
+
+def reads_successor_of(e: ast.AST, cell: str) -> bool:
+    """Does evaluating e ask the graph for the rdf:rest of the plain name `cell`: a call that is handed cell and rdf:rest (value / objects /
+    triples / any reader - not a call that writes: add, set, remove), a walk of the list from it (items(cell)), or a membership test
+    `(cell, rdf:rest, ..) in <graph>`?"""
+    def is_cell(a: ast.AST) -> bool:
+        a = strip_cast(a)
+        return isinstance(a, ast.Name) and a.id == cell
+
+    for c in ast.walk(e):
+        if isinstance(c, ast.Call):
+            attr = c.func.attr if isinstance(c.func, ast.Attribute) else None
+            if attr in _GRAPH_WRITERS:
+                continue
+            flat: list[ast.AST] = []
+            for a in list(c.args) + [k.value for k in c.keywords]:
+                flat.extend(a.elts if isinstance(a, ast.Tuple) else [a])
+            if any(is_cell(a) for a in flat) and (any(loops._is_rest(a) for a in flat) or attr == "items"):
+                return True
+        elif isinstance(c, ast.Compare) and len(c.ops) == 1 and isinstance(c.ops[0], (ast.In, ast.NotIn)) and isinstance(c.left, ast.Tuple) \
+                and len(c.left.elts) == 3 and is_cell(c.left.elts[0]) and loops._is_rest(c.left.elts[1]):
+            return True
+    return False
+
+
+def successor_read_after_unlink(g: CFG, removal_id: int, cell: str) -> Optional[ast.AST]:
+    """A statement that looks up the rdf:rest of the plain name `cell` later in the same pass (no loop back edge taken) than the
+    CFG node removal_id, `cell` not being re-bound in between: the statement, else None.  (The lookup in `cell = value(cell, rest)`
+    is evaluated before the name is re-bound: it counts.)"""
+    seen: set[int] = set()
+    stack = [m for m in g.succ[removal_id] if g.edge_label.get((removal_id, m), "") not in ("back", "exc")]
+    while stack:
+        n = stack.pop()
+        if n in seen:
+            continue
+        seen.add(n)
+        st = g.nodes[n].ast
+        if any(reads_successor_of(e, cell) for e in _own_exprs(st)):
+            return st
+        if binds(st, cell):
+            continue
+        stack.extend(m for m in g.succ[n] if g.edge_label.get((n, m), "") not in ("back", "exc"))
+    return None
